@@ -1176,6 +1176,8 @@ namespace adept {
 #endif
       Type val = rhs.scalar_value();
       Index j_start, j_end_plus_1, index, index_stride;
+      // One operation is pushed per stored element (at most size())
+      ADEPT_ACTIVE_STACK->check_space(size());
       for (Index i = 0 ; i < dimension_; ++i) {
 	Engine::get_row_range(i, dimension_, offset_, 
 			      j_start, j_end_plus_1, index, index_stride);
